@@ -181,18 +181,10 @@ def run_case(case):
         leg["result"] = result_obs(res)
         # the oracle: the resampler's own kd-tree queried once with all valid target pixels (one batch, no chunking)
         kdt = r.delayed_kdtree.compute()
-        n = int(kdt.n) if kdt is not None else 0      # no kd-tree when no source pixel is valid
-        leg["n"] = n
         tl, tt = tgt_x.get_lonlats(chunks=pyresample.CHUNK_SIZE)
         tl_c, tt_c = dask.compute(tl, tt)
-        voi_flat = voi_c.ravel()
-        mask_c = None if mask_np is None else mask_np.ravel()[vii_c.ravel()]
-        raw = np.full(voi_flat.shape, n, dtype=np.int64)
-        if voi_flat.any() and kdt is not None:
-            coords = lonlat2xyz(tl_c.ravel()[voi_flat], tt_c.ravel()[voi_flat])
-            dist, idx = kdt.query(coords, k=1, eps=0, distance_upper_bound=radius, mask=mask_c)
-            raw[voi_flat] = idx
-        leg["oracle_q"] = [int(x) for x in raw]
+        n, leg["oracle_q"] = oracle_answers(kdt, tgt_x, voi_c, vii_c, mask_np, radius)
+        leg["n"] = n
         single = query_no_distance(tl_c, tt_c, voi_c, mask=mask_np, valid_input_index=vii_c,
                                    neighbours=1, epsilon=0, radius=radius, kdtree=kdt)
         leg["qnd_single"] = [int(x) for x in single[:, :, 0].ravel()]
@@ -277,15 +269,117 @@ def run_case(case):
     return o
 
 
+def oracle_answers(kdt, tgt_x, voi_c, vii_c, mask_np, radius):
+    """The resampler's own kd-tree queried once with all valid target pixels (one batch, no chunking)."""
+    n = int(kdt.n) if kdt is not None else 0
+    tl, tt = tgt_x.get_lonlats(chunks=pyresample.CHUNK_SIZE)
+    tl_c, tt_c = dask.compute(tl, tt)
+    voi_flat = voi_c.ravel()
+    mask_c = None if mask_np is None else mask_np.ravel()[vii_c.ravel()]
+    raw = np.full(voi_flat.shape, n, dtype=np.int64)
+    if voi_flat.any() and kdt is not None:
+        coords = lonlat2xyz(tl_c.ravel()[voi_flat], tt_c.ravel()[voi_flat])
+        dist, idx = kdt.query(coords, k=1, eps=0, distance_upper_bound=radius, mask=mask_c)
+        raw[voi_flat] = idx
+    return n, [int(x) for x in raw]
+
+
+def run_history(h):
+    """One resampler instance per source, several successive calls with different masks / data (same explicit
+    DataArray name); every lazy result is computed alone right after its call and all of them once more together."""
+    o = {"id": h["id"], "chunk_size": pyresample.CHUNK_SIZE}
+    tgt_x = make_geom(h["tgt"], "xr")
+    tgt_n = make_geom(h["tgt"], "np")
+    tlon, tlat = np_lonlats(tgt_n)
+    o["tlon"], o["tlat"] = flist(tlon), flist(tlat)
+    radius = h["radius"]
+    fill_x = float("nan") if h["fill"] == "nan" else h["fill"]
+    dims = tuple(h["dims"])
+    steps_out = []
+    prepared = []
+    for st in h["steps"]:
+        spec = h["sources"][st["src"]]
+        src_n = make_geom(spec, "np")
+        slon, slat = np_lonlats(src_n)
+        data = np.array(st["values"], dtype=np.float64).reshape(src_n.shape)
+        mask_np = None if st.get("mask") is None else np.array(st["mask"], dtype=bool).reshape(src_n.shape)
+        so = {"slon": flist(slon), "slat": flist(slat), "src_shape": [int(x) for x in src_n.shape], "tgt_shape": [int(x) for x in tgt_n.shape]}
+        try:
+            if mask_np is None:
+                so["ref"] = numpy_reference(src_n, tgt_n, data, [0, 1], radius, fill_x)
+            else:
+                lons_m = np.where(mask_np, 1e30, slon.astype(np.float64))
+                so["ref"] = numpy_reference(geometry.SwathDefinition(lons_m, slat), tgt_n, data, [0, 1], radius, fill_x)
+        except Exception as e:  # noqa
+            so["ref"] = err(e)
+        steps_out.append(so)
+        prepared.append((st, data, mask_np))
+    for which in ("legacy", "future"):
+        inst = {}
+        lazies, slots = [], []
+        for k, (st, data, mask_np) in enumerate(prepared):
+            so = steps_out[k]
+            w = {}
+            try:
+                if st["src"] not in inst:
+                    src_x = make_geom(h["sources"][st["src"]], "xr")
+                    inst[st["src"]] = (kd_tree.XArrayResamplerNN(src_x, tgt_x, radius_of_influence=radius, neighbours=1, epsilon=0)
+                                       if which == "legacy" else KDTreeNearestXarrayResampler(src_x, tgt_x))
+                r = inst[st["src"]]
+                ch = chunk_arg(st.get("chunks"), data.shape)
+                data_da = xr.DataArray(da.from_array(data, chunks=ch), dims=dims, name=st.get("name"), attrs={"step": k})
+                mask_da = None
+                if mask_np is not None:
+                    mask_da = xr.DataArray(da.from_array(mask_np, chunks=ch), dims=dims, name=st.get("name"))
+                if which == "legacy":
+                    vii, voi, ia, _ = r.get_neighbour_info(mask=mask_da)
+                    res = r.get_sample_from_neighbour_info(data_da, fill_value=fill_x)
+                    vii_c, voi_c, ia_c = dask.compute(vii, voi, ia)
+                    w["vii"], w["voi"] = vlist(vii_c), vlist(voi_c)
+                    w["ia_alone"] = [int(x) for x in ia_c[:, :, 0].ravel()]
+                    w["ia_chunks"] = [[int(c) for c in ax] for ax in ia.chunks]
+                    w["n"], w["oracle_q"] = oracle_answers(r.delayed_kdtree.compute(), tgt_x, voi_c, vii_c, mask_np, radius)
+                    lazies.append(ia)
+                    slots.append((k, "ia_joint"))
+                else:
+                    mode = st.get("mode", "explicit")
+                    mask_area = mask_da if (mode == "explicit" and mask_da is not None) else (True if mode == "on" else False)
+                    res = r.resample(data_da, mask_area=mask_area, fill_value=fill_x, radius_of_influence=radius)
+                w["alone"] = result_obs(res)
+                lazies.append(res.data)
+                slots.append((k, "joint"))
+            except Exception as e:  # noqa
+                w.update(err(e))
+            so[which] = w
+        try:
+            joint = dask.compute(*lazies)
+            for (k, name), val in zip(slots, joint):
+                if name == "ia_joint":
+                    steps_out[k][which][name] = [int(x) for x in val[:, :, 0].ravel()]
+                else:
+                    steps_out[k][which][name] = vlist(val)
+        except Exception as e:  # noqa
+            for (k, name) in slots:
+                steps_out[k][which]["joint_error"] = err(e)
+    o["steps"] = steps_out
+    return o
+
+
 def main():
     req = json.load(sys.stdin)
     out = []
-    for case in req["cases"]:
+    for case in req.get("cases", []):
         try:
             out.append(run_case(case))
         except Exception as e:  # noqa
             out.append({"id": case["id"], "fatal": err(e)})
-    json.dump({"chunk_size": pyresample.CHUNK_SIZE, "cases": out}, sys.stdout)
+    hist = []
+    for h in req.get("histories", []):
+        try:
+            hist.append(run_history(h))
+        except Exception as e:  # noqa
+            hist.append({"id": h["id"], "fatal": err(e)})
+    json.dump({"chunk_size": pyresample.CHUNK_SIZE, "cases": out, "histories": hist}, sys.stdout)
 
 
 main()
